@@ -268,6 +268,18 @@ func richHonest(r *mrand.Rand) *world.World {
 			w.Times[i] = lo.Add(time.Duration(r.Int63n(int64(hi.Sub(lo)/time.Second))) * time.Second)
 		}
 	}
+	if r.Intn(4) == 0 && !w.Times[world.TQeIdentity].Equal(w.Times[world.TTcbInfo]) {
+		// after a renewal the two documents are signed under different editions of the TCB signing certificate; this one is
+		// valid at the QE-Identity time and NOT at the TCB-Info time (each document is judged at its own time)
+		tq, tt := w.Times[world.TQeIdentity], w.Times[world.TTcbInfo]
+		win := world.Window{NotBefore: world.Far.NotBefore, NotAfter: tq.Add(tt.Sub(tq) / 2)}
+		if tt.Before(tq) {
+			win = world.Window{NotBefore: tt.Add(tq.Sub(tt) / 2), NotAfter: world.Far.NotAfter}
+		}
+		qs := world.Issue(world.TcbSignTemplate(win), w.PKI.Root, world.NewKey())
+		w.QeBody = world.SignedBody("enclaveIdentity", w.Qe.JSON(), qs.Key)
+		w.QeHdr = map[string][]string{world.HdrQeID: {world.IssuerChainStyled(w.HdrStyle, qs, w.PKI.Root)}}
+	}
 	return w
 }
 
